@@ -26,7 +26,8 @@ static int kkind, vkind;        /* 0 int, 1 str, 2 probe */
 static var keyobj[MAXK];
 static var valobj[2];
 static var wrongkey, wrongval;
-static int64_t ikeys[MAXK] = { 0, 55, 110, 165, 220, 54, 109, 275, 164, 330, 385, 219 };
+/* home slot 0 modulo 5 and 11 (multiples of 55) interleaved with home = last slot (== -1 modulo 55): wrap-around from the third key on */
+static int64_t ikeys[MAXK] = { 0, 55, 54, 110, 109, 165, 220, 164, 275, 330, 219, 385 };
 static char skeys[MAXK][8];
 
 /* reference model: association lists for A and B */
@@ -566,7 +567,7 @@ static void ladder(void) {
 static void find_string_keys(void) {
   int found0 = 0, found54 = 0, total = 0;
   char s[8];
-  int want54 = K >= 6 ? (K >= 9 ? 3 : 2) : 0;
+  int want54 = K / 3;
   int want0 = K - want54;
   char zero[MAXK][8], last[MAXK][8];
   for (int a = 0; a < 26 * 26 * 26 * 26 && (found0 < want0 || found54 < want54); a++) {
@@ -577,8 +578,13 @@ static void find_string_keys(void) {
     if (h % 55 == 0 && found0 < want0) strcpy(zero[found0++], s);
     else if (h % 55 == 54 && found54 < want54) strcpy(last[found54++], s);
   }
-  for (int i = 0; i < found0; i++) strcpy(skeys[total++], zero[i]);
-  for (int i = 0; i < found54; i++) strcpy(skeys[total++], last[i]);
+  /* interleave: two home-0 keys, then a last-slot key, ... so that small universes already wrap around */
+  { int a = 0, b = 0;
+    while (total < K) {
+      if (a < found0 && (total % 3 != 2 || b >= found54)) strcpy(skeys[total++], zero[a++]);
+      else if (b < found54) strcpy(skeys[total++], last[b++]);
+      else break;
+    } }
   if (total < K) { fprintf(stderr, "h_table: could not find %d colliding string keys\n", K); _exit(2); }
 }
 
